@@ -52,3 +52,10 @@ func (c *Core) VerifSprayGC() {
 		a.GarbageCollect()
 	}
 }
+
+// VerifSprayStopGC unregisters the algorithm's own 60 s garbage-collection cron job, so that
+// metadata is only collected when the harness calls VerifSprayGC.
+func (c *Core) VerifSprayStopGC() {
+	c.cron.Unregister("spray_and_wait_gc")
+	c.cron.Unregister("binary_spray_gc")
+}
